@@ -52,6 +52,7 @@ def parseOp (w : String) : Option Op :=
   | ["rsv", n] => do some (.reserve (← n.toNat?))
   | ["reh", n] => do some (.rehash (← n.toNat?))
   | ["mlf", b] => do some (.setMlf (F32.ofBits (← b.toNat?)))
+  | ["arm", kind, n] => do some (.arm (← kind.toNat?) (← n.toNat?))
   | _ => none
 
 def uks (s : St) (ns : List Nat) : List Nat :=
@@ -65,6 +66,8 @@ def showRes (s : St) : Res → String
   | .misuse => "misuse"
   | .broken w => s!"broken {w}"
   | .sized w => s!"sized {w}"
+  | .threw => "threw"
+  | .count _ n _ _ => s!"count {n}"
 
 /-- step thread `t` until it has performed an access (at most `fuel` silent steps first) -/
 def stepEv (cfg : Cfg) (s : St) (t : Nat) : Nat → St × Option Ev × Option Res
@@ -128,11 +131,11 @@ def dstep (d : D) (ws : List String) : D × String :=
     | none => (d, "bad-op")
   | ["state"] =>
     let s := d.st
-    (d, s!"chain {Proto.showNats (uks s s.L.chain)} | bc {s.bc} | size {s.size} | nodes {s.L.chain.length} | mlf {F32.toBits s.mlf}")
+    (d, s!"chain {Proto.showNats (uks s s.L.chain)} | bc {s.bc} | size {s.size} | nodes {s.L.chain.length} | mlf {F32.toBits s.mlf} | ledger {Proto.showBool (s.freed.all (fun x => !s.L.chain.contains x && s.freed.count x == 1))}")
   | ["nodes"] =>
     let s := d.st
     (d, " ".intercalate ((List.range s.L.fresh).map (fun n =>
-      s!"{n}:{(s.L.key n).ok}:{(s.L.key n).uk}:{Proto.showBool (s.L.chain.contains n)}")))
+      s!"{n}:{(s.L.key n).ok}:{(s.L.key n).uk}:{Proto.showBool (s.L.chain.contains n)}:{Proto.showBool (s.freed.contains n)}")))
   | _ => (d, "bad-op")
 
 def driver : Proto.Driver := { σ := D, init := {}, step := dstep }
@@ -223,6 +226,7 @@ def parseOp (w : String) : Option Op :=
   | ["ins", k, h] => do some (.ins (← k.toNat?) (← h.toNat?))
   | ["find", k] => do some (.find (← k.toNat?))
   | ["trav"] => some .trav
+  | ["arm", kind, n] => do some (.arm (← kind.toNat?) (← n.toNat?))
   | _ => none
 
 def keysOf (s : St) (ns : List Nat) : List Nat := (ns.filter (· ≠ 0)).map (fun n => (s.core.key n).ok - 1)
@@ -232,6 +236,7 @@ def showRes (s : St) : Res → String
   | .find _ _ r => s!"find {Proto.showBool r.isSome}"
   | .trav seen _ => "trav " ++ Proto.showNats (keysOf s seen)
   | .misuse => "misuse"
+  | .threw _ => "threw"
 
 def stepEv (cfg : Cfg) (s : St) (t : Nat) : Nat → St × Option Ev × Option Res
   | 0 => (s, none, none)
@@ -266,6 +271,11 @@ def isSubseq : List Nat → List Nat → Bool
 def levelsOk (cfg : Cfg) (s : St) : Bool :=
   (List.range (cfg.maxLevel - 1)).all (fun l => isSubseq (s.core.chain (l + 1)) (s.core.chain l))
 
+/-- executable check of `insert_throw_safe`: no freed node on any level, nothing freed twice -/
+def ledgerOk (cfg : Cfg) (s : St) : Bool :=
+  s.freed.all (fun x => (List.range cfg.maxLevel).all (fun l => !(s.core.chain l).contains x)) &&
+    s.freed.all (fun x => s.freed.count x == 1)
+
 def dstep (d : D) (ws : List String) : D × String :=
   match ws with
   | ["cfg", multi, maxLevel] =>
@@ -294,15 +304,77 @@ def dstep (d : D) (ws : List String) : D × String :=
     | none => (d, "bad-op")
   | ["state"] =>
     let s := d.st
-    (d, s!"chain {Proto.showNats (keysOf s (s.core.chain 0))} | maxh {s.maxh} | size {s.size} | levels {Proto.showBool (levelsOk d.cfg s)}")
+    (d, s!"chain {Proto.showNats (keysOf s (s.core.chain 0))} | maxh {s.maxh} | size {s.size} | levels {Proto.showBool (levelsOk d.cfg s)} | ledger {Proto.showBool (ledgerOk d.cfg s)}")
   | ["nodes"] =>
     let s := d.st
     (d, " ".intercalate ((List.range s.core.fresh).map (fun n =>
-      s!"{n}:{(s.core.key n).ok}:{s.core.height n}:{Proto.showBool ((s.core.chain 0).contains n)}")))
+      s!"{n}:{(s.core.key n).ok}:{s.core.height n}:{Proto.showBool ((s.core.chain 0).contains n)}:{Proto.showBool (s.freed.contains n)}")))
   | _ => (d, "bad-op")
 
 def driver : Proto.Driver := { σ := D, init := {}, step := dstep }
 end SK
+
+/-! ### the standalone CAS list: `count()` under one interfering insert (set-level differential with the real containers) -/
+namespace CL
+open CasList
+
+structure D where
+  rule : Rule := .after
+  pre  : List Op := []
+  p0   : List Op := []
+  p1   : List Op := []
+
+def parseOp (w : String) : Option Op :=
+  match splitOp w with
+  | ["ins", ok, uk] => do some (.ins ⟨← ok.toNat?, ← uk.toNat?⟩ 0)
+  | ["count", ok, uk] => do some (.count ⟨← ok.toNat?, ← uk.toNat?⟩ 0)
+  | _ => none
+
+def runT (rule : Key → Rule) (s : St) (t : Nat) : Nat → St
+  | 0 => s
+  | fuel + 1 =>
+    match s.ths[t]? with
+    | none => s
+    | some th => if th.pc = .idle ∧ th.ops = [] then s else runT rule (step rule s t) t fuel
+
+def stepsT (rule : Key → Rule) (s : St) (t : Nat) : Nat → St
+  | 0 => s
+  | n + 1 => stepsT rule (step rule s t) t n
+
+def showCount (log : List (Tid × Res)) : String :=
+  match log.filterMap (fun e => match e with | (0, .count _ n lo hi) => some s!"{n} {lo} {hi}" | _ => none) with
+  | r :: _ => r
+  | [] => "none"
+
+def dstep (d : D) (ws : List String) : D × String :=
+  match ws with
+  | ["rule", r] =>
+    match r with
+    | "after" => ({ d with rule := .after }, "ok")
+    | "before" => ({ d with rule := .before }, "ok")
+    | "uniq" => ({ d with rule := .uniq }, "ok")
+    | _ => (d, "bad-op")
+  | "pre" :: ops => match ops.mapM parseOp with | some o => ({ d with pre := o }, "ok") | none => (d, "bad-op")
+  | "prog0" :: ops => match ops.mapM parseOp with | some o => ({ d with p0 := o }, "ok") | none => (d, "bad-op")
+  | "prog1" :: ops => match ops.mapM parseOp with | some o => ({ d with p1 := o }, "ok") | none => (d, "bad-op")
+  | ["hold", j] =>
+    -- the pre-inserts run alone; then thread 0 takes `j` steps, thread 1 runs to completion, thread 0 finishes
+    match j.toNat? with
+    | some j =>
+      let rule : Key → Rule := fun _ => d.rule
+      let s0 : St := { ths := [{ ops := d.pre }] }
+      let s1 := runT rule s0 0 (d.pre.length * 4000 + 10)
+      let s2 : St := { s1 with ths := [{ ops := d.p0 }, { ops := d.p1 }], log := [] }
+      let s3 := stepsT rule s2 0 j
+      let s4 := runT rule s3 1 100000
+      let s5 := runT rule s4 0 100000
+      let fin := match s3.ths[0]? with | some th => if th.pc = .idle ∧ th.ops = [] then " done" else "" | none => ""
+      (d, showCount s5.log ++ fin)
+    | none => (d, "bad-op")
+  | _ => (d, "bad-op")
+
+def driver : Proto.Driver := { σ := D, init := {}, step := dstep }
+end CL
 
 end C12Drv
 
@@ -311,7 +383,8 @@ def drivers : List (String × Proto.Driver) := [
   ("c12so", C12Drv.SO.driver),
   ("c12sz", Proto.pureDriver C12Drv.SZ.pureStep),
   ("c12f32", Proto.pureDriver C12Drv.f32Step),
-  ("c12sk", C12Drv.SK.driver)
+  ("c12sk", C12Drv.SK.driver),
+  ("c12cl", C12Drv.CL.driver)
 ]
 
 def main (args : List String) : IO UInt32 := Proto.mainOf drivers args
